@@ -38,6 +38,15 @@ def make_data(ns, nc, seed, mode="full", nsync=1):
         x = np.cumsum(rng.standard_normal((ns, nc)) * 20, axis=0) + rng.standard_normal((ns, nc)) * 15
         x -= x.mean(axis=0)
         d = np.clip(np.round(x), -30000, 30000).astype(np.int16)
+    elif mode == "broadband":
+        # white + coloured noise + slow drifts, never constant; uses a good part of the int16 range without clipping
+        t = np.arange(ns)[:, None]
+        white = rng.standard_normal((ns, nc)) * rng.uniform(20, 400, size=(1, nc))
+        col = np.cumsum(rng.standard_normal((ns, nc)), axis=0) * rng.uniform(2, 30, size=(1, nc))
+        col -= col.mean(axis=0)
+        drift = rng.uniform(100, 3000, size=(1, nc)) * np.sin(2 * np.pi * t * rng.uniform(1e-5, 2e-3, size=(1, nc)) + rng.uniform(0, 6, size=(1, nc)))
+        common = rng.standard_normal((ns, 1)) * 150
+        d = np.clip(np.round(white + col + drift + common), -32000, 32000).astype(np.int16)
     else:
         raise ValueError(mode)
     if nsync:
